@@ -152,6 +152,8 @@ impl DiscoveryDB {
 
   // Returns if participant was previously unknown
   pub fn update_participant(&mut self, data: &SpdpDiscoveredParticipantData) -> bool {
+    #[cfg(rustdds_verif)]
+    use crate::verif::clock::VInstant as Instant;
     debug!("update_participant: {:?}", &data);
     let guid = data.participant_guid;
 
@@ -203,19 +205,15 @@ impl DiscoveryDB {
     self
       .participant_last_life_signs
       .insert(guid.prefix, Instant::now());
-    #[cfg(rustdds_verif)]
-    self
-      .participant_last_life_signs
-      .insert(guid.prefix, crate::verif::clock::instant(Instant::now()));
 
     new_participant
   }
 
   pub fn participant_is_alive(&mut self, guid_prefix: GuidPrefix) {
+    #[cfg(rustdds_verif)]
+    use crate::verif::clock::VInstant as Instant;
     if let Some(ts) = self.participant_last_life_signs.get_mut(&guid_prefix) {
       let now = Instant::now();
-      #[cfg(rustdds_verif)]
-      let now = crate::verif::clock::instant(now);
       if now.duration_since(*ts) > std::time::Duration::from_secs(1) {
         debug!(
           "Participant alive update for {:?}, but no full update.",
@@ -315,9 +313,9 @@ impl DiscoveryDB {
   // Delete participant proxies, if we have not heard of them within
   // lease_duration
   pub fn participant_cleanup(&mut self) -> Vec<(GuidPrefix, LostReason)> {
-    let inow = Instant::now();
     #[cfg(rustdds_verif)]
-    let inow = crate::verif::clock::instant(inow);
+    use crate::verif::clock::VInstant as Instant;
+    let inow = Instant::now();
 
     let mut to_remove = Vec::new();
     // TODO: We are not cleaning up liast_life_signs table, but that should not be a
